@@ -511,3 +511,63 @@ def r09_3(ctx, rr):
     bs = ("var", "self", bb.params[0]["id"])
     rr.instances += 1
     rr.check(len(sl) == 1 and sl[0].get("is_sorted") == ("field", bs, "is_sorted") and sl[0].get("len") == ("field", bs, "len") and sl[0].get("k") == ("field", bs, "k"), "RearCodedListBuilder::build:carries", "build must carry len, k and is_sorted over unchanged", bb.span)
+
+
+@rule("R09.7", props=["C09"], floor=2, title="longest_common_prefix orders byte strings by single bytes, byte slices or lengths only (a little-endian multi-byte load does not preserve the lexicographic order)")
+def r09_7(ctx, rr):
+    """is_sorted (hence the choice between binary search and linear scan in index_of) rests on the Ordering
+    returned by longest_common_prefix. Every comparison that can decide it must be between u8 values, byte
+    slices, or usize lengths; wider integers only when loaded big-endian."""
+    F = ctx.F()
+    b = F.one(r"^dict::rear_coded_list::longest_common_prefix$")
+    T = Termizer(F, b)
+    lets = {}
+    for n in walk(b.body):
+        if n.get("k") == "LetStmt" and n["pat"].get("k") == "PBind" and "init" in n:
+            lets[n["pat"]["id"]] = n["init"]
+
+    def origin(e, depth=0):
+        """resolve a local to its initialiser (a few steps)"""
+        while e.get("k") == "Path" and e.get("res") == "local" and e.get("id") in lets and depth < 6:
+            e = lets[e["id"]]
+            depth += 1
+        return e
+
+    def strip_ref(t):
+        return re.sub(r"^&(mut )?", "", t.strip())
+
+    cmps = [n for n in walk(b.body) if (n.get("k") == "MethodCall" and n["name"] in ("cmp", "partial_cmp", "lt", "gt", "le", "ge")) or
+            (n.get("k") == "Binary" and n["op"] in ("<", ">", "<=", ">=") and any(x.get("k") in ("Index", "MethodCall", "Call") or True for x in [n["l"]]))]
+    n_ord = 0
+    for n in cmps:
+        if n.get("k") == "MethodCall":
+            recv = n["recv"]
+        else:
+            recv = n["l"]
+        ty = strip_ref(F.ty(recv) or F.tya(recv))
+        src = origin(recv)
+        if n.get("k") == "Binary":
+            # loop bounds and index tests compare positions (usize): irrelevant to the order unless both sides are data
+            if ty == "usize":
+                continue
+        n_ord += 1
+        rr.instances += 1
+        key = "longest_common_prefix:order-by-bytes"
+        ok = False
+        why = ""
+        if ty in ("u8", "[u8]") or ty.startswith("[u8;"):
+            ok = True
+        elif ty == "usize":
+            # a length (tie-break when one string is a prefix of the other)
+            t = T.term(src)
+            ok = t[0] == "call" and t[1] == "len"
+            why = "compares `%s`, which is not a length" % show(F, recv)[:60]
+        else:
+            be = any(x.get("k") in ("Call", "MethodCall") and (x.get("name") in ("from_be_bytes", "to_be", "swap_bytes") or (cname(F, x) or "").endswith(("from_be_bytes", "to_be", "swap_bytes"))) for x in walk(src))
+            ok = be
+            why = "compares `%s` of type %s, which is not loaded big-endian: the order of two words read little-endian (or natively) is decided by their *last* differing byte" % (show(F, recv)[:60], ty)
+        rr.ob(ok, key=key, sample={"compare": show(F, n)[:100], "type": ty})
+        if not ok:
+            rr.violate(key, "longest_common_prefix decides the order of two byte strings with `%s`: %s" % (show(F, n)[:100], why), F.loc(n))
+    if n_ord < 2:
+        raise AnchorMissing("longest_common_prefix: expected the byte comparison and the length tie-break, found %d ordering comparisons" % n_ord)
